@@ -145,10 +145,17 @@ def zip_pairs(rng, n):
             t = later(rng, epoch, C03.DOS_HI)
             return t if t - t % 2 > epoch else t + 2        # later than the epoch on the 2-second DOS grid too
 
+        # every fourth group: an archive written during the build (file mtime later than the epoch) whose members are all
+        # old - nothing to clamp, but the builder's ids and access times in the extra fields still have to go
+        old = i % 4 == 3 and epoch - 200 >= C03.DOS_LO
+        told = [max(C03.DOS_LO, (epoch - rng.choice([2, 86400, 10 ** 7])) // 2 * 2) for _ in content]
+
         def nd():
+            if old:
+                return [(told[j], rng.choice([1, 2, 3]), rng.choice([0, 1000, 65534]), rng.choice([0, 100, 1000])) for j in range(len(content))]
             return [(later_dos(), rng.randrange(4), rng.choice([0, 1000, 65534]), rng.choice([0, 100, 1000])) for _ in content]
         handler = rng.choice(["zip", "jar"])
-        out.append((handler, epoch, [zip_build(content, nd()) for _ in range(2 + rng.randrange(2))], ["zip", "members%d" % len(content)], epoch + 5))
+        out.append((handler, epoch, [zip_build(content, nd()) for _ in range(2 + rng.randrange(2))], ["zip", "members%d" % len(content)] + (["old-members"] if old else []), epoch + 5))
     return out
 
 
